@@ -144,6 +144,22 @@ def summary (j : Json) : R Json := do
   pure (exceptW (listW (fun (r : Disc.SRow) => obj [("feature", Json.str r.feature), ("quant", boolW r.quant),
     ("label", valW r.label), ("content", valsW r.content)])) (s.summary f))
 
+/-- the hypotheses `Disc.Shape` and `C05.Ready` of the frame theorems of C05 / C07 / C10, as a Boolean, evaluated on the
+    implementation's fitted state -/
+def readyB (s : Disc) : Bool :=
+  decide s.quant.Nodup && decide s.qual.Nodup && decide (s.featDropna.map (·.1)).Nodup &&
+  s.quant.all (fun f => match aget? s.orders f, aget? s.lpv f with
+    | some g, some t =>
+      let leaders := g.lst.filter (Disc.neNan s.strNan)
+      !(leaders.any Val.isStr) && decide (Val.inf ∈ leaders) && !(leaders.any (fun l => (aget? t l).isNone))
+    | _, _ => false) &&
+  s.qual.all (fun f => match aget? s.orders f, aget? s.lpv f with
+    | some g, some t => g.values.all (fun v => (aget? t v).isSome)
+    | _, _ => false) &&
+  s.featDropna.all (fun fd => (aget? s.lpv fd.1).isSome) &&
+  s.qual.all (fun f => !(s.quant.contains f)) &&
+  (s.quant ++ s.qual).all (fun f => s.features.contains f)
+
 /-- `judge.C05`: fitted columns of an accepted frame hold fitted labels only (missing where
     `dropna=False` allows it) -/
 def judgeC05 (j : Json) : R Json := do
@@ -155,6 +171,7 @@ def judgeC05 (j : Json) : R Json := do
       let dn := (aget? s.featDropna f).getD s.dropna
       (f, Spec.colAllowed t dn co)
     | _, _ => (f, false))
-  pure (obj [("ok", boolW (res.all (·.2))), ("bad", listW Json.str ((res.filter (fun r => !r.2)).map (·.1)))])
+  pure (obj [("ok", boolW (res.all (·.2))), ("bad", listW Json.str ((res.filter (fun r => !r.2)).map (·.1))),
+             ("ready", boolW (readyB s))])
 
 end DriverDisc
